@@ -7,6 +7,8 @@ CONSTANTS
   EndVecs <- NoExplicitEnd
   CycSet <- CycParams
   Cyc = TRUE
+  Dec = FALSE
+  DecSet <- DecParamsQ
 SPECIFICATION Spec
 INVARIANTS DefinitionsAgree VitMeaning VitResult MantissaBound CycleLemma NoStall
 PROPERTY Progress
